@@ -215,3 +215,48 @@ func VH_C02_FolderUploadSegmentation_sym() {
 	vAssertEqBytes("first_file_same_for_every_segmentation", c02NSFile("/r/up/f.bin"), d1)
 	vAssertEqBytes("second_file_same_for_every_segmentation", c02NSFile("/r/up/g.bin"), d2)
 }
+
+// A whole control session - handshake, login, then two requests - is served the same whether the client's bytes
+// arrive all at once (reads run past the handshake and past each transaction), one byte per read, in 5- or 23-byte
+// pieces, or one message per read: both requests are executed once, in order.
+func VH_C02_ControlSessionSegmentation_sym() {
+	srv, _ := NewServer()
+	srv.Logger = vLogger()
+	vStartOutbox(srv)
+	srv.AccountManager = &vAcctStub{exists: true, account: Account{Login: "bob", Name: "b", Password: HashAndSalt([]byte("pw"))}}
+	srv.BanList = &vBanStub{}
+	srv.Agreement = &vSeeker{text: []byte("agreement")}
+	var order []byte
+	srv.HandleFunc(TranGetUserNameList, func(cc *ClientConn, t *Transaction) []Transaction {
+		order = append(order, 'L')
+		return []Transaction{cc.NewReply(t)}
+	})
+	srv.HandleFunc(TranKeepAlive, func(cc *ClientConn, t *Transaction) []Transaction {
+		order = append(order, 'K')
+		return []Transaction{cc.NewReply(t)}
+	})
+	login := Transaction{Type: TranLogin, ID: [4]byte{0, 0, 0, 1}}
+	r1 := Transaction{Type: TranGetUserNameList, ID: [4]byte{0, 0, 0, 7}}
+	r2 := Transaction{Type: TranKeepAlive, ID: [4]byte{0, 0, 0, 8}}
+	hs := []byte{'T', 'R', 'T', 'P', 'H', 'O', 'T', 'L', 0, 1, 0, 2}
+	m1 := refTransaction(&login, [][]byte{refField(FieldUserLogin[0], FieldUserLogin[1], []byte{0x9d, 0x90, 0x9d}), refField(FieldUserPassword[0], FieldUserPassword[1], []byte("pw"))})
+	m2 := refTransaction(&r1, nil)
+	m3 := refTransaction(&r2, nil)
+	stream := append(append(append(append([]byte(nil), hs...), m1...), m2...), m3...)
+	var rd *vChunkReader
+	switch vChoice("delivery", 5) {
+	case 0:
+		rd = &vChunkReader{data: stream, whole: true}
+	case 1:
+		rd = &vChunkReader{data: stream, whole: true, each: 1}
+	case 2:
+		rd = &vChunkReader{data: stream, whole: true, each: 5}
+	case 3:
+		rd = &vChunkReader{data: stream, whole: true, each: 23}
+	default:
+		rd = &vChunkReader{data: stream, whole: true, sizes: []int{len(hs), len(m1), len(m2), len(m3)}}
+	}
+	srv.handleNewConnection(nil, &vRW{r: rd}, "10.1.2.3:4000")
+	vDrainOutbox(srv)
+	vAssert("both_requests_served_once_in_order_for_every_segmentation", string(order) == "LK")
+}
